@@ -25,6 +25,11 @@ def cmd_explore(a):
     env.boot()
     faulthandler.enable()
     t_end = time.time() + a.deadline
+    from sim import core as _core
+    from sim import enumerate_faults as _ef
+
+    _core.DEADLINE = t_end
+    _ef.DEADLINE = t_end + 15
     n = 0
     agg = {"cells": set(), "nontrivial": set(), "faults": {}, "perturb": {}, "probes": {}, "branches": 0, "rare": 0, "interleavings": set(), "shapes": set(), "steps": 0, "checked": 0, "runs": 0, "twin_steps": 0, "enum_injections": 0}
     with open(a.out, "w") as f:
